@@ -286,3 +286,165 @@ assign_binned = Contract(
                  'sliding to bin when it is not given); DS tag is a non-negative integer'],
 )
 UNITS.append(assign_binned)
+
+
+# ------------------------------------------------------------------------------ assignReads with -bin and -sliding
+# "with sliding increment s it contributes to exactly the windows [i*s, i*s+b) that contain the coordinate": the loop over
+# coordinate_to_bins(...) is verified inductively w.r.t. one arbitrary cell X = (sample, (contig, start, end)) of the table
+# (counting abstraction: the value of that cell is tracked through every iteration; every other cell is framed by X being
+# arbitrary).  coordinate_to_bins is used through its C10 contract.
+from pyvc.symdict import SymDict    # noqa: E402
+from pyvc.engine import LoopSpec, REAL   # noqa: E402
+
+
+def sliding_args(eng):
+    d = assign_args(True)(eng, 'args')
+    sl = named(INT, 'sliding')
+    eng.assume(z3.And(sl.z >= 1, sl.z <= d.attrs['bin'].z))
+    d.attrs['sliding'] = sl
+    return d
+
+
+def sliding_table(eng, name):
+    t = SymDict.empty([(STR,), (STR, INT, INT)], REAL, name='countTable', default=0)
+    t.autoviv = True
+    return t
+
+
+def sliding_setup(window_cell):
+    def setup(eng):
+        assign_setup(eng)
+        xs = named(STR, 'X.sample')
+        if window_cell:
+            # X is the cell of the J-th window returned by coordinate_to_bins, for the read's own sample and contig
+            eng.spec_env['J'] = named(INT, 'J')
+            eng.spec_env['XI'] = True
+        else:
+            eng.spec_env['XI'] = False
+        eng.spec_env['XS'] = xs
+        eng.spec_env['W'] = 0
+        eng.spec_env['XK'] = (named(STR, 'X.contig'), named(INT, 'X.start'), named(INT, 'X.end'))
+    return setup
+
+
+OKB = '(args.keepOverBounds or ({a} >= 0 and {e} <= REFLEN))'
+X_AMONG = ('exists(j, 0 <= j and j < {k} and BINS[j][0] == XK[1] and BINS[j][1] == XK[2])')
+CELL = 'dget(countTable, (XS,), XK, 0)'
+DS = 'read.get_tag("DS")'
+bins_contract2 = _c10.bins(F, 'bamToCountTable')
+bins_contract2.result = ('seq', ('int', 'int'), 2)
+bins_contract2.callees = []
+
+
+def sliding_head(window_cell):
+    def hook(eng, fr):
+        eng.spec_env['W'] = fr.env['countToAdd']
+        if window_cell:
+            bins, j, xk = fr.env['BINS'], eng.spec_env['J'], eng.spec_env['XK']
+            b = bins.get(j.z)
+            eng.assume(z3.And(j.z >= 0, j.z < bins.n, xk[1].z == b[0].z, xk[2].z == b[1].z))
+    return hook
+
+
+def sliding_unit(window_cell):
+    req = ['read.has_tag("SM")', 'read.has_tag("DS")', DS + ' < 2**53']
+    if window_cell:
+        req += ['XS == read.get_tag("SM") and XK[0] == "chrA"']
+        # with the completeness clause of the bins contract: every window containing the coordinate (inside the contig) gets W
+        ens = {'every_returned_window_inside_the_contig_gets_the_weight_exactly_once':
+               'implies(PASSES and %s, %s == W)' % (OKB.format(a='XK[1]', e='XK[2]'), CELL)}
+    else:
+        ens = {'nothing_counted_when_filtered': 'implies(not PASSES, %s == 0)' % CELL,
+               'only_windows_containing_the_coordinate_are_counted_and_only_once':
+               'implies(%s != 0, XS == read.get_tag("SM") and XK[0] == "chrA" and XK[2] == XK[1] + args.bin and '
+               'XK[1] %% args.sliding == 0 and XK[1] <= %s and %s < XK[2] and %s and %s == W)' % (
+                   CELL, DS, DS, OKB.format(a='XK[1]', e='XK[2]'), CELL)}
+    return Contract(
+        PROP, F + '::assignReads', name='assignReads[-bin -sliding, %s]' % ('cell of a window' if window_cell else 'arbitrary cell'),
+        params={'read': assign_read, 'countTable': sliding_table, 'args': lambda e, n: sliding_args(e), 'joinFeatures': ('const', True),
+                'featureTags': ('const', ['reference_name', 'DS']), 'sampleTags': ('const', ['SM']), 'more_args': ('const', []),
+                'blacklist_dic': 'none'},
+        setup=sliding_setup(window_cell),
+        callees=[bins_contract2],
+        requires=req,
+        loops={'coordinate_to_bins(': LoopSpec(
+            it='BINS', head_hook=sliding_head(window_cell),
+            inv={'cell_X_holds_the_weight_iff_its_window_was_visited_and_is_in_bounds':
+                 '%s == (countToAdd if (XS == read.get_tag("SM") and XK[0] == "chrA" and %s and %s) else 0)' % (
+                     CELL, X_AMONG.format(k='k'), OKB.format(a='XK[1]', e='XK[2]'))},
+            types={'countTable': 'frame-object', 'sample': 'frame', 'start': 'int', 'end': 'int'},
+            exit={'cell_X_final': '%s == (countToAdd if (XS == read.get_tag("SM") and XK[0] == "chrA" and %s and %s) else 0)' % (
+                CELL, X_AMONG.format(k='seqlen(BINS)'), OKB.format(a='XK[1]', e='XK[2]')),
+                  # W (ghost) is the increment used by the loop; it is the documented weight
+                  'weight': 'countToAdd == W and W * %s == %s' % (DIV, BASE_W)})},
+        ensures=ens,
+        raises={},
+        assumptions=['coordinate_to_bins through its contract C10/bins@bamToCountTable (windows containing the point, strictly '
+                     'increasing, complete); DS tag is a non-negative integer; 1 <= sliding <= bin',
+                     'counting abstraction w.r.t. one arbitrary table cell X (sample, contig, start, end)'],
+    )
+
+
+def sliding_replay(inputs, clause):
+    """the real assignReads on a real pysam record with -bin / -sliding options of the counter-model; the expected table is
+    computed from the property statement: weight in exactly the windows [i*s, i*s+b) containing DS (inside the contig
+    unless keepOverBounds)"""
+    import collections
+    import types
+    import pysam
+    from fractions import Fraction
+    from pyvc import bamreplay as B
+    from pyvc.contract import import_real
+    mod_assign = import_real(F, 'assignReads')
+    should = import_real(F, 'read_should_be_counted')
+    w = B.witness_read(inputs['read'])
+    w['tags'] = {k: (int(v) if k in ('NM', 'NH', 'DS') else (str(v) or 'x')) for k, v in w['tags'].items()}
+    w['is_unmapped'] = False
+    a = dict(inputs['args']['attrs'])
+    b, sl = int(a['bin']), int(a['sliding'])
+    L = int(a['ref_lengths']['chrA'])
+    ds = int(w['tags'].get('DS', 0))
+    header = pysam.AlignmentHeader.from_dict({'HD': {'VN': '1.6'}, 'SQ': [{'SN': 'chrA', 'LN': max(L, 1)}]})
+    seg = B.make_segment(header, w, 'chrA', 'q')
+    a.update({'filterMP': False, 'minMQ': 0, 'proper_pairs_only': False, 'no_indels': False, 'max_base_edits': None,
+              'no_softclips': False, 'filterXA': False, 'dedup': False})
+    if a.get('r1only') and seg.is_read2:
+        a['r1only'] = False
+    if a.get('r2only') and seg.is_read1:
+        a['r2only'] = False
+    seg.is_qcfail = False
+    args = types.SimpleNamespace(**a)
+    if not should(seg, args, None):
+        return {'status': 'no-input', 'note': 'real filter rejects the realised record'}
+    table = collections.defaultdict(collections.Counter)
+    mod_assign(seg, table, args, True, ['reference_name', 'DS'], ['SM'], [], None)
+    base = Fraction(1) if (a['r1only'] or a['r2only'] or a['doNotDivideFragments']) else \
+        (Fraction(1, 2) if (seg.is_paired and not seg.mate_is_unmapped) else Fraction(1))
+    div = 1
+    if a['divideMultimapping']:
+        if seg.has_tag('XA'):
+            div = len(seg.get_tag('XA').split(';'))
+        elif seg.has_tag('NH'):
+            div = int(seg.get_tag('NH'))
+    wgt = float(base / div)
+    expect = {}
+    for i in range(ds // sl - b // sl - 2, ds // sl + 2):
+        lo, hi = i * sl, i * sl + b
+        if lo <= ds < hi and (a['keepOverBounds'] or (lo >= 0 and hi <= L)):
+            expect[('chrA', lo, hi)] = wgt
+    got = {k: dict(v) for k, v in table.items()}
+    mine = {k: v for k, v in got.get((seg.get_tag('SM'),), {}).items() if v != 0}
+    obs = {'outcome': 'return', 'value': {str(k): {str(kk): vv for kk, vv in v.items()} for k, v in got.items()},
+           'expected': {str(k): v for k, v in expect.items()}, 'DS': ds, 'bin': b, 'sliding': sl, 'ref_length': L,
+           'keepOverBounds': bool(a['keepOverBounds'])}
+    same = set(mine) == set(expect) and all(abs(mine[k] - expect[k]) < 1e-9 for k in expect) and \
+        all(not any(v.values()) for k, v in got.items() if k != (seg.get_tag('SM'),))
+    if not same:
+        return {'status': 'confirmed', 'observed': obs, 'failed': [{'clause': 'weight in exactly the windows containing the coordinate'}]}
+    return {'status': 'not-reproduced', 'observed': obs}
+
+
+assign_sliding = [sliding_unit(False), sliding_unit(True)]
+for _u in assign_sliding:
+    _u.replay = sliding_replay
+UNITS += assign_sliding
